@@ -128,6 +128,8 @@ def oracleStation (want : String) (o : OSt) (op obs : String) : OSt × Fail :=
     else if obs = "dead" then (o, none) else
     match nowS.toInt?, parsePollObs obs with
     | some now, some r =>
+      -- an offline station returns at once: nothing is registered, consumed or transmitted
+      if !o.online then ({ o with st := "Offline", lastPoll := some now }, none) else
       let ts := o.p.address
       let consumedLen := o.buf.length - r.rxLeft
       let consumed := o.buf.take consumedLen
@@ -324,7 +326,11 @@ def oracleStation (want : String) (o : OSt) (op obs : String) : OSt × Fail :=
         | some e => some e
         | none =>
           let poked := noticed || o.phyTx || (match o.lastActivity with | some l => decide (now ≤ l) | none => false)
-          if poked then some (match o.lastActivity with | some l => max l now | none => now) else o.lastActivity
+          if poked then some (match o.lastActivity with | some l => max l now | none => now)
+          else match o.lastActivity with
+            | some l => some l
+            -- every handler initialises an unknown activity time to `now` (`get_or_insert(now)`)
+            | none => if r.st != "Offline" then some now else none
       let isTokTx : Bool := match r.tx with | some b => (isTokenFrame b).isSome | none => false
       let sameTok : Bool := isTokTx && decide (o.lastTokenTx = r.tx) && !o.heardSinceToken
       let enteringUse : Bool := r.st == "UseToken" && prevSt != "UseToken" && prevSt != "AwaitDataResponse"
@@ -389,7 +395,12 @@ def oracleStation (want : String) (o : OSt) (op obs : String) : OSt × Fail :=
              | _ => false
            if isClaimTok then some 0 else if r.st != "ClaimToken" then none
            else if isGapPoll then o.pollsSinceClaim.map (· + 1) else o.pollsSinceClaim) }
-      (o', first [c01, c11, c12, c15, c13, c06])
+      -- the station took itself offline in this poll (address collision): same reset as `set_offline`
+      let o'' : OSt := if r.st == "Offline" then
+          { p := o.p, napps := o.napps, alive := o.alive, buf := o'.buf, bufAtLastPoll := o'.buf.length, phyTx := o.phyTx,
+            ns := o.p.address, ps := o.p.address, las := [o.p.address], lastPoll := some now }
+        else o'
+      (o'', first [c01, c11, c12, c15, c13, c06])
     | _, _ => (o, some (want, s!"unparsable observation: {obs}"))
   | _ => (o, none)
 
